@@ -949,3 +949,145 @@ Proof.
   constructor; [cbn; intros [H|[]]; discriminate|].
   constructor; [cbn; tauto|constructor].
 Qed.
+
+(** * Sequences of fast-forward interactions: the decision has no memory *)
+
+(* outcomes after which the node must be exactly as before: Restore failed after a successful check,
+   or the response was refused by the checks *)
+Definition quiet (r : nres) : Prop := r = NRestoreFailed \/ exists x, r = NRes x /\ pre_reset x.
+
+Lemma quiet_not_adopted r : quiet r -> nres_adopted r = false.
+Proof.
+  intros [H|[x [H Hp]]]; subst; [reflexivity|].
+  destruct Hp as [Hp|[Hp|[Hp|Hp]]]; subst; reflexivity.
+Qed.
+
+Lemma core_ff_fixed_after_check known st b f :
+  check_ff_fixed known b f = FFOk ->
+  fst (core_ff_fixed known st b f) = FFOk \/ fst (core_ff_fixed known st b f) = FFPanicReset \/
+  fst (core_ff_fixed known st b f) = FFResetError.
+Proof.
+  intros E. unfold core_ff_fixed. rewrite E.
+  destruct (reset_result_cases f) as [[E1 _]|[E1|E1]]; rewrite E1; simpl; auto.
+Qed.
+
+Lemma node_step_quiet_noop known ns l ok r ns' :
+  node_step known ns l ok = (r, ns') -> quiet r -> ns' = ns.
+Proof.
+  unfold node_step, node_step_gen. cbn [rl_check_first rule_fixed].
+  destruct (best_response l) as [x|].
+  2:{ intros H [Hq|[y [Hq _]]]; inversion H; subst; discriminate. }
+  rewrite gen_fixed_check_ff.
+  destruct (check_ff_fixed_res known (r_block x) (r_frame x)) as [E|E].
+  - rewrite E. destruct ok.
+    + unfold restore_then_core. rewrite gen_fixed_core.
+      pose proof (core_ff_fixed_after_check known (ns_core ns) (r_block x) (r_frame x) E) as HC.
+      destruct (core_ff_fixed known (ns_core ns) (r_block x) (r_frame x)) as [res c]. simpl in HC.
+      intros H Hq. destruct HC as [-> | [-> | ->]]; inversion H; subst;
+        destruct Hq as [Hq|[y [Hq [Hp|[Hp|[Hp|Hp]]]]]]; try discriminate; inversion Hq; subst; discriminate.
+    + intros H _. inversion H. reflexivity.
+  - destruct E as [E|[E|[E|E]]]; rewrite E; intros H _; inversion H; reflexivity.
+Qed.
+
+(* a prefix of quiet outcomes leaves the node and what it knows exactly as they were, and the rest of
+   the sequence runs as if the prefix had never happened *)
+Lemma node_seq_quiet_prefix genesis known ns prefix : forall rest rs nsf kf,
+  node_seq genesis known ns prefix = (rs, nsf, kf) ->
+  Forall quiet rs ->
+  nsf = ns /\ kf = known /\
+  node_seq genesis known ns (prefix ++ rest) =
+    (let '(rs', n', k') := node_seq genesis known ns rest in (rs ++ rs', n', k')).
+Proof.
+  induction prefix as [|s t IH]; intros rest rs nsf kf H HQ.
+  - simpl in H. injection H as <- <- <-. simpl.
+    destruct (node_seq genesis known ns rest) as [[a b] c]. auto.
+  - simpl in H. simpl app. cbn [node_seq].
+    destruct (node_step known ns (st_answers s) (st_restore_ok s)) as [r ns1] eqn:ES.
+    destruct (node_seq genesis
+                (if nres_adopted r then match best_response (st_answers s) with
+                                        | Some x => known_after genesis (r_frame x) | None => known end
+                 else known) ns1 t) as [[rs1 n1] k1] eqn:ET.
+    injection H as <- <- <-. inversion HQ as [|? ? Hq HQ']; subst.
+    pose proof (node_step_quiet_noop _ _ _ _ _ _ ES Hq) as ->.
+    rewrite (quiet_not_adopted _ Hq) in *.
+    destruct (IH rest _ _ _ ET HQ') as [-> [-> E]].
+    split; [reflexivity|split; [reflexivity|]].
+    rewrite E. destruct (node_seq genesis known ns rest) as [[a b] c]. reflexivity.
+Qed.
+
+(* in particular the call that follows answers exactly as it would on the untouched node *)
+Lemma node_decision_independent_of_history genesis known ns prefix s rs nsf kf :
+  node_seq genesis known ns prefix = (rs, nsf, kf) ->
+  Forall quiet rs ->
+  fst (fst (node_seq genesis known ns (prefix ++ [s]))) =
+    rs ++ [fst (node_step known ns (st_answers s) (st_restore_ok s))] /\
+  snd (fst (node_seq genesis known ns (prefix ++ [s]))) =
+    snd (node_step known ns (st_answers s) (st_restore_ok s)).
+Proof.
+  intros H HQ. destruct (node_seq_quiet_prefix genesis known ns prefix [s] _ _ _ H HQ) as [_ [_ E]].
+  rewrite E. cbn [node_seq].
+  destruct (node_step known ns (st_answers s) (st_restore_ok s)) as [r ns1]. simpl. auto.
+Qed.
+
+(* core level: the list of decisions of a sequence is a function of the responses and of the initial
+   known sets alone (not of the core state), and the known sets evolve by adoptions only *)
+Fixpoint seq_decisions (genesis : list Z) (known : list (list Z)) (l : list (ffblock * ffframe))
+  : list ffres * list (list Z) :=
+  match l with
+  | [] => ([], known)
+  | (b, f) :: t =>
+    let r := ff_decide_fixed known b f in
+    let '(rs, kf) := seq_decisions genesis (if is_ok r then known_after genesis f else known) t in
+    (r :: rs, kf)
+  end.
+
+Lemma core_seq_decisions genesis l : forall known st,
+  fst (fst (core_seq genesis known st l)) = fst (seq_decisions genesis known l) /\
+  snd (core_seq genesis known st l) = snd (seq_decisions genesis known l).
+Proof.
+  induction l as [|[b f] t IH]; intros known st; [simpl; auto|].
+  cbn [core_seq seq_decisions].
+  pose proof (core_ff_fixed_decision known st b f) as HD.
+  destruct (core_ff_fixed known st b f) as [r st'] eqn:E. simpl in HD. subst r.
+  specialize (IH (if is_ok (ff_decide_fixed known b f) then known_after genesis f else known) st').
+  destruct (core_seq genesis (if is_ok (ff_decide_fixed known b f) then known_after genesis f else known) st' t)
+    as [[rs stf] kf].
+  destruct (seq_decisions genesis (if is_ok (ff_decide_fixed known b f) then known_after genesis f else known) t)
+    as [rs' kf'].
+  simpl in *. destruct IH as [-> ->]. auto.
+Qed.
+
+Lemma core_seq_state_blind genesis known st1 st2 l :
+  fst (fst (core_seq genesis known st1 l)) = fst (fst (core_seq genesis known st2 l)) /\
+  snd (core_seq genesis known st1 l) = snd (core_seq genesis known st2 l).
+Proof.
+  destruct (core_seq_decisions genesis l known st1) as [A B].
+  destruct (core_seq_decisions genesis l known st2) as [C D]. rewrite A, B, C, D. auto.
+Qed.
+
+(* the genesis peers stay known whatever is adopted; so do the adopted frame's own validators *)
+Lemma known_after_genesis genesis f v : mem_key v genesis = true -> in_known (known_after genesis f) v = true.
+Proof.
+  intros H. unfold in_known, known_after. cbn [existsb]. rewrite H. apply orb_true_r.
+Qed.
+
+Lemma known_after_peers genesis f v :
+  mem_key v (peers_digest (ff_peers f)) = true -> in_known (known_after genesis f) v = true.
+Proof. intros H. unfold in_known, known_after. cbn [existsb]. rewrite H. reflexivity. Qed.
+
+(* with a succeeding Restore the one-call function is Node.fastForward of the earlier theorems *)
+Lemma node_step_is_node_ff_fixed known ns l :
+  node_step known ns l true =
+    match node_ff_fixed known ns l with
+    | (Some r, ns') => (NRes r, ns')
+    | (None, ns') => (NNone, ns')
+    end.
+Proof.
+  unfold node_step, node_step_gen, node_ff_fixed. cbn [rl_check_first rule_fixed].
+  destruct (best_response l) as [x|]; [|reflexivity].
+  rewrite gen_fixed_check_ff.
+  destruct (check_ff_fixed known (r_block x) (r_frame x)) eqn:E; try reflexivity;
+    unfold restore_then_core; rewrite gen_fixed_core;
+    destruct (core_ff_fixed known (ns_core ns) (r_block x) (r_frame x)) as [res c];
+    destruct res; reflexivity.
+Qed.
